@@ -6,13 +6,15 @@ from engine_m import exec as X
 from engine_m.session import Binding
 from engine_k import runner as K
 from .common import *
-from .tlv_stream import TlvStream
+from .tlv_stream import TlvStream, find_fn, roundtrip
 
-EVIDENCE = dict(assumptions=['kernel only: codec primitives of util/ser.rs and the TLV-stream machinery of the real exported macros on a probe struct (Kani); the field wiring of ClaimableHTLC\'s writer (write_claimable_htlc) against its reader over an abstract record stream - leaf codecs and byte lengths abstracted (engine M); every other large persisted object (manager, monitor, graph, scorer, sweeper) and behavioural equivalence after reload are outside the claim', 'Kani model: bitcoin-io io::Error payload compiled out under cfg(kani) (harness/patched/bitcoin-io); harness-local fixed-array Writer/Reader'])
+EVIDENCE = dict(assumptions=['kernel only: codec primitives of util/ser.rs and the TLV-stream machinery of the real exported macros on a probe struct (Kani); the field wiring of the writers of ClaimableHTLC (write_claimable_htlc), ChannelConfig and ChannelUpdateInfo against their separately written readers over an abstract record stream - leaf codecs and byte lengths abstracted (engine M); every other large persisted object (manager, monitor, graph, scorer, sweeper) and behavioural equivalence after reload are outside the claim', 'Kani model: bitcoin-io io::Error payload compiled out under cfg(kani) (harness/patched/bitcoin-io); harness-local fixed-array Writer/Reader'])
 
 
 def run(S):
     claimable_htlc(S, S.decls())
+    channel_config(S, S.decls())
+    channel_update_info(S, S.decls())
     K.run_property(S, 'C12')
 
 
@@ -105,3 +107,98 @@ def claimable_htlc(S, D):
     S.no_panic(ids[1], E, pre, 'neither side panics', [b])
     S.witness(ids[2], E, pre + [o_key, o_sk[0], o_trv[0]], r_ok)
     S.validate(ids[3], E, b, n=100 if S.tier == 'quick' else 400)
+
+
+def _panic(E):
+    return z3.Or(*[X.zbool(p[0]) for p in E.panics]) if E.panics else False
+
+
+def channel_config(S, D):
+    """C12.m: ChannelConfig (persisted with every channel) - writer and reader keep separate field lists, with a
+    legacy fixed-limit field (type 6) next to the newer enum (type 3)."""
+    ids = ['C12.m.channel_config.' + k for k in ('roundtrip', 'nopanic', 'witness', 'validate')]
+    if all(S._skip(o) for o in ids):
+        return
+    E = S.engine(unwind=12)
+    mem = {}
+    fw = find_fn(S, r'::write\(_1: &(?:\w+::)*ChannelConfig, _2: &mut W\)')
+    fr = find_fn(S, r'::read\(_1: &mut R\) -> (?:std::result::)?Result<(?:\w+::)*ChannelConfig, ')
+    cfg = E.sym('cfg', '&util::config::ChannelConfig', mem)
+    T, w_ok, r_ok, back = roundtrip(S, D, E, mem, fw, fr, cfg)
+    orig = mem[cfg.cell]
+    CF = D.struct_fields('ChannelConfig')
+    rd = lambda v, nm, ty: E.read_path(v, (('f', CF.index(nm), ty),), mem, True, 'spec')
+    eqs, ins, outs = [], [], []
+    for nm, ty in (('forwarding_fee_proportional_millionths', 'u32'), ('forwarding_fee_base_msat', 'u32'), ('cltv_expiry_delta', 'u16'),
+                   ('force_close_avoidance_max_fee_satoshis', 'u64')):
+        a, b = rd(orig, nm, ty).t, rd(back, nm, ty).t
+        eqs.append(a == b)
+        ins.append(a)
+        outs.append(b)
+    a, b = X.zbool(rd(orig, 'accept_underpaying_htlcs', 'bool').t), X.zbool(rd(back, 'accept_underpaying_htlcs', 'bool').t)
+    eqs.append(a == b)
+    ins.append(z3.If(a, 1, 0))
+    outs.append(z3.If(b, 1, 0))
+    MD = 'util::config::MaxDustHTLCExposure'
+    od, bd = rd(orig, 'max_dust_htlc_exposure', MD), rd(back, 'max_dust_htlc_exposure', MD)
+    pay = lambda v: z3.If(X.zint(v.d) == 0, E.en_payload(v, 'FixedLimitMsat', 0, 0, 'u64', mem, 'spec').t, E.en_payload(v, 'FeeRateMultiplier', 1, 0, 'u64', mem, 'spec').t)
+    eqs += [X.zint(od.d) == X.zint(bd.d), pay(od) == pay(bd)]
+    ins += [X.zint(od.d), pay(od)]
+    outs += [X.zint(bd.d), pay(bd)]
+    b_ = Binding('channel_config_roundtrip', ins, [z3.If(r_ok, 1, 0)] + [z3.If(r_ok, o, 0) for o in outs], panic=_panic(E),
+                 domain=[(0, U32), (0, U32), (0, U16), (0, U64), (0, 1), (0, 1), (0, U64)])
+    S.prove(ids[0], E, [], z3.And(w_ok, r_ok, *eqs),
+            'a ChannelConfig reads back equal to what was written: fees, CLTV delta, force-close fee limit, the underpaying-HTLC flag and the dust-exposure limit (enum and legacy fixed-limit record) - the separately written field lists of writer and reader agree',
+            [b_], bounds='abstract record stream (types %s); leaf codecs abstracted; all field values' % ', '.join(str(r['t']) for r in T.recs))
+    S.no_panic(ids[1], E, [], 'neither side panics', [b_])
+    S.witness(ids[2], E, [X.zint(od.d) == 1], r_ok)
+    S.validate(ids[3], E, b_, n=100 if S.tier == 'quick' else 400)
+
+
+def channel_update_info(S, D):
+    """C12.m: ChannelUpdateInfo (one per channel direction in the persisted NetworkGraph) - hand-written reader with an
+    Option-wrapped htlc_maximum_msat for backwards compatibility."""
+    ids = ['C12.m.channel_update_info.' + k for k in ('roundtrip', 'nopanic', 'witness', 'validate')]
+    if all(S._skip(o) for o in ids):
+        return
+    E = S.engine(unwind=12)
+    mem = {}
+    fw = find_fn(S, r'::write\(_1: &(?:\w+::)*ChannelUpdateInfo, _2: &mut W\)')
+    fr = find_fn(S, r'::read\(_1: &mut R\) -> (?:std::result::)?Result<(?:\w+::)*ChannelUpdateInfo, ')
+    info = E.sym('info', '&routing::gossip::ChannelUpdateInfo', mem)
+    T, w_ok, r_ok, back = roundtrip(S, D, E, mem, fw, fr, info)
+    orig = mem[info.cell]
+    CU = D.struct_fields('ChannelUpdateInfo')
+    RF = D.struct_fields('RoutingFees')
+    rd = lambda v, nm, ty: E.read_path(v, (('f', CU.index(nm), ty),), mem, True, 'spec')
+    eqs, ins, outs = [], [], []
+    for nm, ty in (('last_update', 'u32'), ('cltv_expiry_delta', 'u16'), ('htlc_minimum_msat', 'u64'), ('htlc_maximum_msat', 'u64')):
+        a, b = rd(orig, nm, ty).t, rd(back, nm, ty).t
+        eqs.append(a == b)
+        ins.append(a)
+        outs.append(b)
+    a, b = X.zbool(rd(orig, 'enabled', 'bool').t), X.zbool(rd(back, 'enabled', 'bool').t)
+    eqs.append(a == b)
+    ins.append(z3.If(a, 1, 0))
+    outs.append(z3.If(b, 1, 0))
+
+    def ident(v):
+        if getattr(v, 'alt', None) is not None:
+            c_, x, y = v.alt
+            return z3.If(X.zbool(c_), ident(x), ident(y))
+        if getattr(v, 'base', None) is None:
+            return z3.Int('ident!unknown%d' % next(E.nfresh))
+        return z3.Int('ident.' + v.base)
+    # fees and the stored message are leaves of their own (RoutingFees / Option<ChannelUpdate> codecs): identity
+    eqs.append(ident(rd(orig, 'fees', 'routing::gossip::RoutingFees')) == ident(rd(back, 'fees', 'routing::gossip::RoutingFees')))
+    om, bm = rd(orig, 'last_update_message', 'Option<ln::msgs::ChannelUpdate>'), rd(back, 'last_update_message', 'Option<ln::msgs::ChannelUpdate>')
+    msg = lambda o: ident(E.en_payload(o, 'Some', 1, 0, 'ln::msgs::ChannelUpdate', mem, 'spec'))
+    eqs.append(z3.And(X.zint(om.d) == X.zint(bm.d), z3.Implies(X.zint(om.d) == 1, msg(om) == msg(bm))))
+    b_ = Binding('channel_update_info_roundtrip', ins, [z3.If(r_ok, 1, 0)] + [z3.If(r_ok, o, 0) for o in outs], panic=_panic(E),
+                 domain=[(0, U32), (0, U16), (0, U64), (0, U64), (0, 1)])
+    S.prove(ids[0], E, [], z3.And(w_ok, r_ok, *eqs),
+            'a ChannelUpdateInfo of the persisted network graph reads back equal: timestamp, enabled flag, CLTV delta, HTLC minimum / maximum (written Option-wrapped for old readers), fees and the retained message',
+            [b_], bounds='abstract record stream (types %s); leaf codecs abstracted; all field values' % ', '.join(str(r['t']) for r in T.recs))
+    S.no_panic(ids[1], E, [], 'neither side panics', [b_])
+    S.witness(ids[2], E, [], r_ok)
+    S.validate(ids[3], E, b_, n=100 if S.tier == 'quick' else 400)
